@@ -146,6 +146,16 @@ Theorem C11_upsert_correct : forall (hash : Type) (node : hash -> hash -> hash) 
   (forall g0 h0 k0, CL node z0 m g0 h0 k0 -> CL node z0 (ins_all heq_dec m (snd res)) g0 h0 k0).
 Proof. intros hash node z0 inj heq_dec. exact (upsert_correct node z0 inj heq_dec). Qed.
 
+(* NOT PROVED (kept as statements; checked on every run instead):
+   (1) sroot_ref_is_sroot: the executable sparse evaluator of the run-time predicate is MerkleSpec.sroot:
+         forall m, NoDup (map fst m) -> (forall e, In e m -> fst e <= mask32 /\ snd e <> 0) ->
+           sroot_ref 32 m = sroot nodeN (fun j => map_get m (N.of_nat j)) 32.
+       Missing: the induction over the height with the N.testbit / nat-range bookkeeping. The two are compared by vm_compute on the
+       non-vacuity state below and, through `corr` + `spec_c11`, on every recorded root of every generated case.
+   (2) rollup_root_matches_manager: no rollup returns to a zero exit root -> sroot nodeN m 32 = RollupManager.getRollupExitRoot().
+       The manager's Solidity loop is not transcribed in Model/Contracts.v; the equality is checked per run against the bytecode of the
+       repository's mock of that function in the simulated EVM (L1InfoCases.contract_ok). *)
+
 (* ---------- transactions ---------- *)
 Theorem C11_fault_atomic : forall f st k e st', process_block f st k = (Some e, st') -> st_db st' = st_db st.
 Proof. exact process_block_error_keeps_db. Qed.
